@@ -378,6 +378,8 @@ class HistoryGen:
                 return None
             nt = rng.randint(1, min(3, len(tars)))
             targets = tuple(rng.sample(tars, nt))
+            # (a target listed twice - one location driven through two weights - is not generated: the unmodified
+            #  library books a repeated entry twice on register but removes a reader's edge once, see DESIGN section 9)
             weights = tuple(rng.choice([0.5, 1.0, 2.0, -1.5, 0.25]) for _ in range(nt))
             self.tcount += 1
             return ("regk", "k%d%s" % (self.tcount, self.cfg["salt"]), s, weights, targets)
